@@ -23,8 +23,9 @@ CATALOGUE = {
     "wpd": ["{ PdV = RsV; }", "{ PdV = (RsV & RtV); }"],
     "hyb": ["{ i = 0; RdV = ((i++) + clz32(RsV)) + siV; }", "{ j = 1; RdV = ((j++) + clo32(RsV)) + uiV; }"],
     "f_parse": ["{ RdV = ; }", "{ RdV = RsV @ 1; }"],
-    "f_late": ["{ if (RsV) { P2 = mem_load_u8(RsV + siV); } RdV = clz32(RsV); while (RsV) { } }",
-               "{ if (RtV) { P2 = mem_load_u8(RtV + uiV); } RdV = clo32(RsV); do { } while (RsV); }"],
+    "f_late": ["{ if (RsV) { P2 = mem_load_u8(RsV + siV); } RdV = (clz32(RsV) + nofunc(RtV)); }",
+               "{ if (RtV) { P2 = mem_load_u8(RtV + uiV); } i = 0; while ((i++) + clo32(RsV)) { } }",
+               "{ if (RsV) { P2 = mem_load_u8(RsV + siV); } const uint32_t k; k = (clz32(RtV) + siV); }"],
     "f_type": ["{ const int32_t x = (NsN + siV); x = 1; }", "{ const uint32_t y = (NtN + uiV); y = 2; }"],
 }
 ORDER = ["plain", "cond", "newld", "stjmp", "wp0", "wp13", "wpd", "hyb", "f_parse", "f_late", "f_type"]
@@ -140,6 +141,19 @@ def run(ctx):
             "ok": r["ok"], "norm": normalise(text) if r["ok"] else None, "meta": r.get("meta", [None])[0] if entry == "insn" else None,
             "hyb": r["proj"].get("hyb_count", 0) - fres[j["id"]]["res"][0]["proj"].get("hyb_count", 0) if "hyb_count" in r.get("proj", {}) else 0,
         }
+    # catalogue check: a late failure must really leave every channel dirty at the moment of the failure
+    pj = [{"id": "probe|%d" % i, "steps": [{"op": "new", "inst": 0, "format": "READ_STATEMENTS"}, {"op": "probe", "inst": 0, "code": t}]}
+          for i, t in enumerate(CATALOGUE["f_late"])]
+    pres = impl.run_jobs(pj, mode="fresh")
+    for j in pj:
+        r = pres[j["id"]]["res"][1]
+        b = r.get("before_reset", {})
+        if "unavailable" in b or not b:
+            ctx.notes.append("catalogue probe unavailable (internal layout changed)")
+            continue
+        okc = (not r["ok"]) and b["pending"] and b["imm"] and b["preds"] and any(b["flags"].values()) and b["write"]
+        if not okc:
+            raise RuntimeError("catalogue entry f_late %s does not leave all channels dirty: %s" % (j["id"], b))
     # catalogue sanity: failing entries fail, others compile, in a fresh compiler
     for (bid, ti, entry), f in fresh.items():
         if f["ok"] == bid.startswith("f_"):
